@@ -17,7 +17,7 @@ TRUSTED = seq_props.TRUSTED[:3] + [
     "statement's wildcard language, case-folded iff IGNORECASE",
 ]
 G7 = ("_getattr", "__cmp", "__get", "__start", "get")
-G8 = ("_getattr", "is_wildcard", "__translate", "__match", "__start", "glob")
+G8 = ("_getattr", "is_wildcard", "__translate", "__match", "__start", "glob", "__glob", "__find")
 
 
 def collect(pid):
@@ -38,9 +38,9 @@ def bounded_part(pid, tier):
         out = driver.harness_json("resolver.py", "search", spec, timeout=6000)
         what = ("round-trip sentence (get(m, absolute path of n) is n; get(m, Walker-spelled relative path) is n) and the agreement of "
                 "the code-level specification with the statement's component semantics" if pid == "C07" else
-                "Resolver.__glob / __find (recursive descent: '..', '', '.', '**', wildcard and literal components, which errors are "
-                "swallowed) against the statement's denotation, pre-order / duplicate-freeness clauses, strict-mode dead-end rule, "
-                "agreement with get on wildcard-free paths, cache histories, and the assumed `re` axioms")
+                "strict mode of Resolver.__glob / __find (which errors are raised or swallowed: dead-end rule, agreement with get on "
+                "wildcard-free paths), the pre-order / duplicate-freeness reading of the relaxed denotation GL, cache histories end to "
+                "end, and the assumed `re` axioms (relaxed mode itself is proved: result = GL, nothing raised)")
         res.bounded.append({"what": "BOUNDED stand-in (never counted as proved): " + what, "bound": json.dumps(spec) +
                             " - all ordered trees up to `nodes` nodes x 3 name sets (incl. regex metacharacters, case variants, "
                             "duplicates) x 2 separators/path attributes x paths of up to `comps` components over 15 components x "
